@@ -7,6 +7,33 @@ from .. import gen, diff, families
 PID = "C02"
 
 
+def signed_zero_cases():
+    """the recorded finding: a float column holding both 0.0 and -0.0"""
+    from ..dl import Program, Rule, Atom, Var, Flt, Num
+    from ..gen import Case
+    from ..vals import F32
+    out = []
+    P = Program()
+    P.rel("fz_0", [("x", "float")], is_output=True)
+    P.rules.append(Rule([Atom("fz_0", [Flt(0.0)])], [], None))
+    P.rules.append(Rule([Atom("fz_0", [Flt(-0.0)])], [], None))
+    out.append(Case(0, "float-signed-zero", P, "fz(0.0). fz(-0.0).", edb={}))
+    P = Program()
+    P.rel("fin_1", [("x", "float")], is_input=True)
+    P.rel("fz_1", [("x", "float"), ("y", "number")], is_output=True)
+    P.rules.append(Rule([Atom("fz_1", [Var("x"), Num(1)])], [Atom("fin_1", [Var("x")])], None))
+    out.append(Case(1, "float-signed-zero", P, "fz(x,1) :- fin(x).  with fin = {0.0, -0.0}", edb={"fin_1": ((F32(0.0),), (F32(-0.0),))}))
+    return out
+
+
+def classify(case, db, cfg, rel, why):
+    if case.family == "float-signed-zero" and cfg.mode != "interp":
+        for e in load_findings(PID):
+            if e["id"] == "C02-float-signed-zero":
+                return e
+    return None
+
+
 def check(tier):
     rep = Report(PID, tier, "exploration")
     dl = Deadline(600 if tier == "quick" else 3300)
@@ -22,6 +49,7 @@ def check(tier):
             continue
         diff.differential(rep, cases, dbs, single, name, batch_size=100, deadline=dl)
         rep.sample({"family": name, "cases": len(cases), "databases": len(dbs), "modes": "-g, interpreter", "example": cases[len(cases) // 2].desc}, cap=30)
+    diff.differential(rep, signed_zero_cases(), None, single + multi, "float-signed-zero", batch_size=1, deadline=dl, classify=classify)
     # multi-file generation is two orders of magnitude more expensive to build (one translation unit per
     # relation and stratum): the first k members (simplest first) of every family
     k = 6 if tier == "quick" else 40
